@@ -217,7 +217,7 @@ def _x1(rc: RuleCtx, m: rm.LoopModel, tag: str):
 def _x3(rc: RuleCtx, m: rm.LoopModel):
     res = rc.res
     fi = m.fi
-    allowed = set()
+    allowed = set(rm.BUDGET_NODES.get(id(fi.node), ()))        # `range(length)` of a bounded for (rewritten as the while form)
     for n in ast.walk(m.loop.test):
         allowed.add(id(n))
     for st in ast.walk(m.loop):
